@@ -1,5 +1,6 @@
 import RubyTi.Model.Frame
 import RubyTi.Props.C21
+import RubyTi.Gen.LoaderFacts
 
 /-!
 # C19 — config file names and splitting do not matter (table-level core)
@@ -15,6 +16,11 @@ leaves that regime are stated as the hypothesis `hk` and recorded as known findi
 (the same method declared twice: the first becomes the primary signature) and a method that an
 already-loaded ancestor or the Builtin frame also declares (it is attached there as an overload).
 The per-declaration parsing is C21's model.
+`loader_reads_reviewed` pins down (regenerated from the source each run) which global state the
+loader READS while loading: only `ClassInheritanceMap[node]` (duplicate-edge check) and
+`TSignatureDocument[key]` (keep a non-empty document) — both reads of the key being written, never
+of what OTHER files wrote; a new read (for example of `BuiltinClasses`, which grows file by file)
+breaks this obligation.
 -/
 namespace RubyTi.C19
 open RubyTi RubyTi.Frame
@@ -73,5 +79,9 @@ theorem same_key_order_matters :
 
 /-- non-vacuity -/
 example : (([(1, 10), (2, 20), (3, 30)] : List (Nat × Nat)).map (·.1)).Nodup := by decide
+
+/-- the loader's reads of global state, as extracted from builtin/json_loader.go now, are the reviewed ones -/
+theorem loader_reads_reviewed :
+    Gen.loaderReads = [("ClassInheritanceMap", 1), ("TSignatureDocument", 2)] := by decide
 
 end RubyTi.C19
